@@ -128,6 +128,9 @@ type NativeRunner struct {
 	dir  string
 	seq  int64
 	mu   sync.Mutex
+	raceOnce sync.Once
+	raceBin  string
+	raceErr  error
 }
 
 func (nr *NativeRunner) build() error {
@@ -204,8 +207,77 @@ func extractCrash(s string) string {
 	return s
 }
 
+// buildRace compiles the replay binary with the Go race detector.
+func (nr *NativeRunner) buildRace() error {
+	nr.raceOnce.Do(func() {
+		if err := nr.build(); err != nil {
+			nr.raceErr = err
+			return
+		}
+		nr.raceBin = filepath.Join(nr.dir, "replay_race.test")
+		ctx, cancel := context.WithTimeout(context.Background(), 10*time.Minute)
+		defer cancel()
+		cmd := exec.CommandContext(ctx, "go", "test", "-race", "-c", "-vet=off", "-tags=verif", "-overlay", nr.eng.overlayJSON, "-o", nr.raceBin, ".")
+		cmd.Dir = nr.eng.cfg.repoDir
+		cmd.Env = append(os.Environ(), "GOFLAGS=-mod=mod", "GOPROXY=off", "GOSUMDB=off", "GOTOOLCHAIN=local")
+		if out, err := cmd.CombinedOutput(); err != nil {
+			nr.raceErr = fmt.Errorf("native -race build failed: %v\n%s", err, firstLines(string(out), 20))
+		}
+	})
+	return nr.raceErr
+}
+
+// confirmRace runs the case under the Go race detector and looks for a report that names one of
+// the two source locations of the statically found race.
+func (nr *NativeRunner) confirmRace(v *Violation) {
+	if err := nr.buildRace(); err != nil {
+		v.Confirmed, v.NativeOut = "not-run", err.Error()
+		return
+	}
+	var sites []string
+	for _, f := range strings.Fields(v.Label) {
+		if i := strings.Index(f, "@"); i >= 0 {
+			s := f[i+1:]
+			if j := strings.Index(s, "("); j >= 0 {
+				s = s[:j]
+			}
+			sites = append(sites, s)
+		}
+	}
+	for try := 0; try < 4; try++ {
+		nr.mu.Lock()
+		nr.seq++
+		id := nr.seq
+		nr.mu.Unlock()
+		cf := filepath.Join(nr.dir, fmt.Sprintf("case%d.json", id))
+		b, _ := json.Marshal(v.Case)
+		os.WriteFile(cf, b, 0o644)
+		ctx, cancel := context.WithTimeout(context.Background(), 120*time.Second)
+		cmd := exec.CommandContext(ctx, nr.raceBin, "-test.run", "^TestVerifReplay$", "-test.count=1", "-test.timeout=100s")
+		cmd.Dir = nr.dir
+		cmd.Env = append(os.Environ(), "VERIF_CASE="+cf, "VERIF_OUT="+filepath.Join(nr.dir, fmt.Sprintf("out%d.json", id)), "GORACE=halt_on_error=0")
+		out, _ := cmd.CombinedOutput()
+		cancel()
+		os.Remove(cf)
+		txt := string(out)
+		if strings.Contains(txt, "DATA RACE") {
+			for _, s := range sites {
+				if strings.Contains(txt, s) {
+					v.Confirmed, v.NativeOut = "reproduced", "go test -race reports a DATA RACE at "+s
+					return
+				}
+			}
+		}
+	}
+	v.Confirmed, v.NativeOut = "not-reproduced", "the Go race detector did not report this race in 4 native runs"
+}
+
 // confirm replays a violation natively.
 func (nr *NativeRunner) confirm(v *Violation) {
+	if strings.HasPrefix(v.Label, "race: RACE") {
+		nr.confirmRace(v)
+		return
+	}
 	res, err := nr.run(v.Case)
 	if err != nil {
 		v.Confirmed, v.NativeOut = "not-run", err.Error()
